@@ -289,6 +289,7 @@ func (C07) Assumptions() []string {
 
 type c07run struct {
 	symlinks     bool              // place() creates symbolic links to files in a side store
+	links        int               // symbolic links made for directory arguments so far
 	placed       map[string]string // dir|file id -> first path placed there
 	hardlinkDups bool
 	dirName      int // newDir() nests the directory below build/, target/, out/production/
@@ -363,7 +364,8 @@ func (r *c07run) argForm(dir string, form int) string {
 		out = dir + "/"
 	case 4:
 		// the directory is reached through a symbolic link (current -> releases/v3)
-		link := filepath.Join(r.ctx.Dir, fmt.Sprintf("current%d", r.seq))
+		r.links++
+		link := filepath.Join(r.ctx.Dir, fmt.Sprintf("current%d", r.links)) // one link per operation: all links exist before the process starts
 		os.Remove(link)
 		if err := os.Symlink(dir, link); err == nil {
 			out = link
@@ -1067,7 +1069,13 @@ func (C07) Run(ctx *sim.RunCtx, data json.RawMessage) (*sim.Outcome, error) {
 					return nil, err
 				}
 				if len(nodes) != len(files) {
-					add("bs/node-count", fmt.Sprintf("%s: %d nodes for %d delivered files", where, len(nodes), len(files)), map[string]string{"pass": "bs", "clause": "node-count"})
+					var got []string
+					for _, nd := range nodes {
+						var x struct{ NodeName, FilePath string }
+						json.Unmarshal([]byte(nd), &x)
+						got = append(got, x.FilePath+":"+x.NodeName)
+					}
+					add("bs/node-count", fmt.Sprintf("%s: %d nodes for %d delivered files\n nodes: %v", where, len(nodes), len(files), got), map[string]string{"pass": "bs", "clause": "node-count"})
 					continue
 				}
 				// per-file model equality (nodes come in directory order = delivery order)
